@@ -354,6 +354,16 @@ func (endp *Endpoint) setupListeners(addresses []config.Endpoint) error {
 }
 
 func (endp *Endpoint) NewSession(conn *smtp.Conn) (smtp.Session, error) {
+	// A repeated EHLO/LHLO makes go-smtp replace the session object without
+	// telling the old one, close it here so its transaction is aborted.
+	if conn != nil {
+		if prev := conn.Session(); prev != nil {
+			if err := prev.Logout(); err != nil {
+				endp.Log.Error("logout of the replaced session failed", err)
+			}
+		}
+	}
+
 	sess := endp.newSession(conn)
 
 	// Executed before authentication and session initialization.
